@@ -450,6 +450,14 @@ func genC12(master uint64, idx int) *Workload {
 		if huge {
 			n = []int{140, 270, 530, 1040, 1100}[r.Intn(5)] // past 128 / 256 / 512 / 1024 entries
 		}
+		// just past a likely capacity, accessed at random: hits on old entries and evicting
+		// misses keep alternating (lookup and use in two critical sections, stale index
+		// entries, slots recycled under a reader)
+		around := !huge && r.Chance(1, 5)
+		if around {
+			c := []int{16, 32, 64, 128, 256}[r.Intn(5)]
+			n = c + 1 + r.Intn(c/4+2)
+		}
 		for i := 0; len(w.Exprs) < n; i++ {
 			switch r.Intn(5) {
 			case 0:
@@ -467,6 +475,9 @@ func genC12(master uint64, idx int) *Workload {
 		nc = 3 + r.Intn(2)
 		for c := 0; c < nc; c++ {
 			nops := 24 + r.Intn(24)
+			if around {
+				nops = n/2 + r.Intn(n)
+			}
 			var ops []Op
 			if huge {
 				// fill phase: this client's share of the expressions, each once; then a hot set
